@@ -370,7 +370,7 @@ class StingyConfigurator(pg.All):
         classes = [
             puan.variable,
             pg.AtLeast,
-            pg.AtLeast,
+            pg.ExactlyOne,
             pg.AtMost,
             pg.All,
             Any,
